@@ -92,5 +92,5 @@ func (m *manager) vannounce(lease mtypes.LeaseID, mani *manifest.Manifest) {
 
 // vtrace emits the projected service state.
 func (s *service) vtrace(event string) {
-	veriftrace.Emit(vService, "", event, "managers", len(s.managers), "watchdogs", len(s.watchdogs))
+	veriftrace.Emit(vService, s.session.Provider().Owner, event, "managers", len(s.managers), "watchdogs", len(s.watchdogs))
 }
